@@ -913,3 +913,8 @@ def finish(tier, rep: Report):
         fails.append("exhaustive weight vectors not swept")
     return fails
 
+
+def dupflag_variant(task, tier):
+    """Tasks that are also run with config.display_duplicate_attribute_warning = True (the runner appends
+    ':duplicate_attribute_flag' to the input class of anything found there)."""
+    return bool(task.get("fam") == "tet")
